@@ -199,10 +199,12 @@ class PyIter:
 
 class BuilderV:
     """rowan::GreenNodeBuilder: event log + rowan's own panics"""
-    __slots__ = ('log', 'depth', 'roots')
+    __slots__ = ('log', 'depth', 'roots', 'flat', 'open_at_finish')
 
     def __init__(s):
-        s.log = []; s.depth = 0; s.roots = 0
+        # rowan keeps ONE flat `children` vector; `parents` records (kind, first_child index).  flat[d] = number of
+        # elements currently in `children` that belong to open level d (flat[0] = top level).
+        s.log = []; s.depth = 0; s.roots = 0; s.flat = [0]; s.open_at_finish = 0
 
 
 class LexerV:
